@@ -53,10 +53,22 @@ def run_check(pid, scratch):
     return r.returncode, r.stdout
 
 
+MECHANICAL = ['rename-locals', 'swap-ifelse', 'flatten-else', 'guard-clause', 'split-chain', 'demorgan', 'kw-to-pos',
+              'pos-to-kw', 'temporaries', 'joinpath-div', 'rename-locals+swap-ifelse+temporaries']
+
+
 def one(pid, root, kind, name, patch):
     scratch = make_scratch(root)
     try:
-        if not apply_patch(scratch, patch):
+        if kind == 'mechanical':
+            # AST-level behaviour-preserving rewriting of the scratch copy (tools/autorefactor.py); nothing is executed
+            for m in patch.split('+'):
+                r = subprocess.run([os.path.join(VERIF, 'tools', 'autorefactor.py'), m, scratch],
+                                   stdout=subprocess.PIPE, stderr=subprocess.STDOUT, text=True)
+                if r.returncode != 0:
+                    return (kind, name, 'skipped', f'autorefactor {m} failed: {r.stdout[-200:]}')
+            kind_ = 'benign'
+        elif not apply_patch(scratch, patch):
             return (kind, name, 'skipped', 'patch does not apply to the current tree')
         # the variant must still be valid Python
         for fn in os.listdir(os.path.join(scratch, 'darr')):
@@ -98,6 +110,8 @@ def corpus(pid):
                     meta = json.load(fh)
                 if pid in meta.get('detected_by', []):
                     jobs.append(('seeded', 'reverted-fix-' + name, pp))
+    for mode in MECHANICAL:
+        jobs.append(('mechanical', mode, mode))
     bd = os.path.join(VERIF, 'benign')
     if os.path.isdir(bd):
         for name in sorted(os.listdir(bd)):
@@ -117,7 +131,7 @@ def thorough(pid, root, seed):
     failed = [r for r in results if r[2] == 'FAILED']
     skipped = [r for r in results if r[2] == 'skipped']
     nseed = sum(1 for r in results if r[0] == 'seeded' and r[2] == 'ok')
-    nben = sum(1 for r in results if r[0] == 'benign' and r[2] == 'ok')
+    nben = sum(1 for r in results if r[0] in ('benign', 'mechanical') and r[2] == 'ok')
     print(f'{pid}: self-test — {nseed} seeded defect(s) reported, {nben} behaviour-preserving variant(s) silent, '
           f'{len(skipped)} skipped, {len(failed)} failed')
     for r in skipped:
